@@ -58,7 +58,7 @@ class RunRoles:
         self.part_var = names[-1]
         self.partx_var = names[0] if len(names) == 2 else None
         self.iter_entry, self.cut = graph.region_of_loop(g, self.loop)
-        self.loop_nodes = graph.reachable([self.iter_entry], avoid=self.cut)
+        self.loop_nodes = [n for n in g.nodes if graph.in_loop_body(n, self.loop.ast)] + [self.iter_entry]
         self.loop_ids = set(id(n) for n in self.loop_nodes)
         self.done_branch = [b for b in self.loop.nsucc() if b.kind == 'branch' and b.attrs['polarity'] == 'done'][0]
 
